@@ -177,7 +177,7 @@ ROUGH_TLV = KaniUnit(
                 "/\\ last offset inside the payload", kind="bounded", bound=_C12_BOUND, covers=7, mod="decoder"),
         Harness("c12_new_accepts_exactly_wide", ["C12"], "MessageView::new",
                 "acceptance only, wider window: never panics; Ok <=> the format's acceptance rule, with up to LW/8 pairs in the "
-                "header", kind="bounded", bound="every byte string of length <= {LW} (N up to {LW}/8)", covers=3, timeout=1500,
+                "header", kind="bounded", bound="every byte string of length <= {LW} (N up to {LW}/8)", covers=3, timeout=3000,
                 mod="decoder"),
         Harness("c12_values_tile", ["C12"], "MessageView::get_value",
                 "on every accepted message, for every i < N: get_value(i) is the sub-slice [8N+start_i, 8N+end_i) "
